@@ -159,7 +159,7 @@ TraceInit ==
   /\ comp = NoComp /\ disk = {} /\ nextFile = 0 /\ curWal = 0 /\ logWal = 0 /\ nextPin = 1 /\ gcDue = FALSE
   /\ l = 1 /\ viol = <<>> /\ bad = {} /\ dirty = FALSE /\ lastEv = "none"
   /\ runInfo = [run |-> 0, seed |-> 0, mode |-> "none", disarmed |-> FALSE, wlog |-> <<>>,
-                tag |-> ""]
+                tag |-> "", walFirst |-> <<>>]
   /\ keep = <<>> /\ lastIter = 0 /\ manNo = 0
   /\ isOpen = FALSE /\ flushed = FALSE /\ gpins = {} /\ deferred = {}
   /\ ackStore = <<>> /\ inflight = <<>>
@@ -177,7 +177,7 @@ TReset ==
   /\ FreshCore(Ev.nk)
   /\ l' = l + 1 /\ viol' = <<>> /\ bad' = {} /\ dirty' = FALSE /\ lastEv' = "none"
   /\ runInfo' = [run |-> Ev.run, seed |-> Ev.seed, mode |-> Ev.driver, disarmed |-> FALSE,
-                  wlog |-> <<>>, tag |-> Ev.tag]
+                  wlog |-> <<>>, tag |-> Ev.tag, walFirst |-> <<>>]
   /\ keep' = <<>> /\ lastIter' = 0
   /\ manNo' = 0 /\ isOpen' = FALSE /\ flushed' = FALSE /\ gpins' = {} /\ deferred' = {}
   /\ ackStore' = [k \in 1..Ev.nk |-> 0] /\ inflight' = <<>>
@@ -332,6 +332,66 @@ TProbe ==
                  ackStore, inflight>>
 
 ---------------------------------------------------------------------------
+(* C15 corruption probes (check-only), appended after the clean close at the end of a run: one
+   byte of one persistent file was altered (or a table truncated) and the image was opened.
+   Table / manifest / CURRENT damage: every value served must be the value written (or an
+   error).  WAL damage: records of that log may be lost, so a key may also show any value it had
+   since the first record of that log - never anything else. *)
+
+AllowedAfterWalDamage(k, w) ==
+  LET from == IF w \in DOMAIN runInfo.walFirst THEN runInfo.walFirst[w] - 1 ELSE Len(hist) IN
+  {AbstractAt(hist, k, s) : s \in from..Len(hist)}
+
+\* every value the key ever had (0 = absent)
+EverHad(k) == {AbstractAt(hist, k, s) : s \in 0..Len(hist)}
+
+TCorruptProbe ==
+  /\ IsEv("CorruptProbe")
+  /\ LET final == [k \in Keys |-> AbstractAt(hist, k, Len(hist))]
+         okVal(k, v) == \/ v = -1
+                        \/ (IF Ev.kind = "wal" THEN v \in AllowedAfterWalDamage(k, Ev.n)
+                            ELSE v = final[k])
+         staleVal(k, v) == v \in EverHad(k)
+         gotAll == [k \in Keys |-> <<Ev.gets[k], Ev.gets2[k]>>]
+         badKeys == {k \in Keys : ~okVal(k, Ev.gets[k]) \/ ~okVal(k, Ev.gets2[k])}
+         onlyStaleGets == \A k \in badKeys : staleVal(k, Ev.gets[k]) /\ staleVal(k, Ev.gets2[k])
+         ordered(sq, rev) == \A i \in 1..(Len(sq) - 1) :
+                               IF rev THEN sq[i][1] > sq[i + 1][1] ELSE sq[i][1] < sq[i + 1][1]
+         inKeys(sq) == \A i \in 1..Len(sq) : sq[i][1] \in Keys
+         exact(sq) == /\ \A i \in 1..Len(sq) : okVal(sq[i][1], sq[i][2])
+                      /\ (Ev.kind = "wal" \/ {sq[i][1] : i \in 1..Len(sq)} = {k \in Keys : final[k] # 0})
+         \* classification of a scan that reported success
+         scanClass(ok, sq, rev) ==
+            IF ~ok THEN "ok"
+            ELSE IF ~inKeys(sq) \/ ~ordered(sq, rev) THEN "wrong"
+            ELSE IF exact(sq) THEN "ok"
+            ELSE IF \A i \in 1..Len(sq) : okVal(sq[i][1], sq[i][2]) THEN "incomplete"
+            ELSE IF \A i \in 1..Len(sq) : staleVal(sq[i][1], sq[i][2]) THEN "stale"
+            ELSE "wrong"
+         worst(a, b) == IF "wrong" \in {a, b} THEN "wrong" ELSE IF "stale" \in {a, b} THEN "stale"
+                        ELSE IF "incomplete" \in {a, b} THEN "incomplete" ELSE "ok"
+         sc == worst(scanClass(Ev.fwdok, Ev.fwd, FALSE), scanClass(Ev.bwdok, Ev.bwd, TRUE))
+         det == [keys |-> <<Ev.n, Ev.off, Ev.mode>>, at |-> 0]
+         sfx == ("_" \o Ev.kind) \o (IF Ev.field = "any" THEN "" ELSE "_" \o Ev.field)
+         v0 == IF Ev.hang THEN ObsViol(<<"C15", "C09">>, "CorruptionHang" \o sfx, det) ELSE <<>>
+         v1 == IF Ev.open_ok /\ badKeys # {}
+               THEN ObsViol(<<"C15">>, (IF onlyStaleGets THEN "CorruptionServedStaleValue"
+                                        ELSE "CorruptionServedWrongValue") \o sfx,
+                            [keys |-> <<Ev.n, Ev.off, Ev.mode>> \o SetToSeq(badKeys), at |-> 0])
+               ELSE <<>>
+         v2 == IF Ev.open_ok /\ sc # "ok"
+               THEN ObsViol(<<"C15">>,
+                      (CASE sc = "incomplete" -> "CorruptionScanIncomplete"
+                         [] sc = "stale" -> "CorruptionScanStale"
+                         [] OTHER -> "CorruptionScanWrong") \o sfx, det)
+               ELSE <<>>
+         v3 == IF Ev.panic THEN ObsViol(<<"C15P">>, "CorruptionPanic" \o sfx, det) ELSE <<>> IN
+     JudgeAnd(((v0 \o v1) \o v2) \o v3)
+  /\ Step(FALSE, "")
+  /\ UNCHANGED <<coreVars, runInfo, keep, lastIter, manNo, isOpen, flushed, gpins, deferred,
+                 ackStore, inflight>>
+
+---------------------------------------------------------------------------
 (* filesystem operations (SimFs journal) *)
 
 TFs ==
@@ -423,8 +483,12 @@ TCommit ==
                  THEN ObsViol(<<"C01">>, "SeqReused", [keys |-> <<Ev.first, Len(hist)>>, at |-> 0])
                  ELSE <<>>)
   /\ Step(TRUE, "Commit")
+  \* first sequence number logged to each write-ahead log (for C15: what a damaged WAL may lose)
+  /\ runInfo' = IF Ev.wal \in DOMAIN runInfo.walFirst THEN runInfo
+                ELSE [runInfo EXCEPT !.walFirst =
+                        [w \in DOMAIN @ \cup {Ev.wal} |-> IF w = Ev.wal THEN Ev.first ELSE @[w]]]
   /\ UNCHANGED <<nk, imm, immOn, immDone, immWal, files, cur, pins, snaps, pending, comp, disk,
-                 nextFile, curWal, logWal, nextPin, gcDue, runInfo, keep, lastIter, manNo, isOpen,
+                 nextFile, curWal, logWal, nextPin, gcDue, keep, lastIter, manNo, isOpen,
                  flushed, gpins, deferred, ackStore, inflight>>
 
 TRotate ==
@@ -710,7 +774,7 @@ TPanic ==
 ---------------------------------------------------------------------------
 
 TraceNext ==
-  \/ TReset \/ TEnd \/ TStutter \/ TFs \/ TCall \/ TRet \/ TProbe
+  \/ TReset \/ TEnd \/ TStutter \/ TFs \/ TCall \/ TRet \/ TProbe \/ TCorruptProbe
   \/ TRecoverManifest \/ TOpened \/ TOpenRet \/ TClosed
   \/ TCommit \/ TRotate \/ TEdit \/ TFlushBuilt \/ TImmDropped \/ TPicked \/ TOutputOpened \/ TCompactionDone
   \/ TSnapshot \/ TRelease \/ TIterNew \/ TIterDrop \/ TIterDropped \/ TIterKeep
